@@ -344,6 +344,7 @@ def run(P, C, tier):
     r7_cursor_writes(P, C)
     r8_window_per_chain(P, C)
     r9_emptied_day(P, C)
+    r10_window_open_ended(P, C, "R10")
 
 
 READ_T = re.compile(r"\b(?:FROM|JOIN)\s+([A-Za-z_][A-Za-z0-9_]*)", re.I)
@@ -541,3 +542,50 @@ def r9_emptied_day(P, C):
         ok = addressed and bool(del_execs) and guarded and skips_update and bool(upd_execs)
         detail = "DELETE addressed by (room, entity, date): %s; executed only when the recomputed count is 0: %s; the iteration then skips the computed-day UPDATE: %s" % (addressed, guarded, skips_update)
     C.ob("R9", "emptied-day-leaves-the-log", ok, cp.loc(dels[0][0]) if dels else cp.loc(), detail)
+
+
+def r10_window_open_ended(P, C, R):
+    """Each day's history hash is derived from the previous day's: a change on day d changes the history hash of EVERY later day
+    of the chain. The statement that selects the log rows to recompute must therefore deliver every day from the first marked
+    day to the END of the chain: a lower bound on date only. An upper bound (or a LIMIT) leaves the later days with a history hash
+    computed from the old content, and two peers compare rooms by the last day's hashes only."""
+    C.rule(R, "the window of log rows that compute() re-chains is open-ended: at the top level of the selecting statement, date has a lower bound only "
+              "(no `date <`/`<=`/BETWEEN, no LIMIT), so every day after a changed day gets a new history hash and the last-day summary that peers compare changes")
+    try:
+        cp = P.body("daily_log::DailyLogsUpdate::compute")
+    except mir.MissingAnchor as e:
+        C.anchor_missing(R, "compute", e)
+        return
+    C.saw(cp)
+    n = 0
+    for bi, callee, text, holes, term in sql.statements(cp):
+        if not text or "_daily_log" not in text or not re.search(r"need_recompute", text):
+            continue
+        t = _strip_sql_comments(text)
+        if not re.search(r"^\s*(WITH\b.*?\)\s*)?SELECT\b", t, re.I | re.S):
+            continue
+        # depth-0 skeleton: parenthesised parts become `()`
+        sk, depth = [], 0
+        for c in t:
+            if c == "(":
+                if depth == 0:
+                    sk.append("()")
+                depth += 1
+            elif c == ")":
+                depth -= 1
+            elif depth == 0:
+                sk.append(c)
+        sk = " ".join("".join(sk).split())
+        m = re.search(r"\bWHERE\b(.*?)(\bORDER\s+BY\b|\bGROUP\s+BY\b|\bLIMIT\b|$)", sk, re.I | re.S)
+        where = m.group(1) if m else ""
+        col = r"(\w+\.)?date"
+        lower = re.search(col + r"\s*>=?\s*(\(\)|\?)|(\(\)|\?)\s*<=?\s*" + col + r"\b", where, re.I) is not None
+        upper = re.search(col + r"\s*(<=?|BETWEEN\b)|(\(\)|\?\d*)\s*>=?\s*" + col + r"\b", where, re.I)
+        limit = re.search(r"\bLIMIT\b", sk, re.I)
+        n += 1
+        ok = lower and upper is None and limit is None
+        C.ob(R, "window-open-ended", ok, cp.loc(bi), "top level of the statement: `%s`; lower bound on date: %s, upper bound: %s, LIMIT: %s%s" % (
+            sk[:160], lower, upper.group(0) if upper else "none", "yes" if limit else "none",
+            "" if ok else " -- the days after the last selected day keep a history hash computed from the old content of the earlier days: "
+            "the last-day summary does not change and peers conclude there is nothing to synchronise"))
+    C.floor(R, "window statements of compute", n, 1)
